@@ -609,6 +609,7 @@ class DataLinkConnection(TransmissionControlObject):
         if rcvd_pdu.name not in self.DLC_PDU_NAMES:
             self.err("non connection mode pdu on data link connection")
             send_pdu = pdu.FrameReject.from_pdu(rcvd_pdu, flags="W", dlc=self)
+            self.state.SHUTDOWN = True  # close without disconnect handshake
             self.close()
             self.send_queue.append(send_pdu)
             return
